@@ -464,6 +464,38 @@ def check_C16(ctx, rep):
 
 # =================================================================== C17
 
+def clearing_sites(fa):
+    """places where an Option slot reached through a loop iterator is emptied:
+    [(kind, place expr, (bb, idx|None))]"""
+    out = []
+    is_it = lambda pe: contains(pe, lambda x: is_call(x, 'Iterator>::next') or is_call(x, 'Iterator::next'))
+    for (pe, v, site, mp) in stores(fa):
+        if v[0] == 'agg' and v[2] == 'None' and v[1].endswith('Option') and is_it(pe) and any(e in ('*', '*raw') for e in mp['pr']):
+            out.append(('= None', pe, site))
+    for (b, f, a, t) in calls(fa):
+        cs = callee_str(f)
+        if (cs.endswith('Option::<T>::take') or cs.endswith('mem::take')) and a and is_it(a[0]):
+            out.append(('take()', a[0], (b, None)))
+        if cs.endswith('mem::replace') and len(a) == 2 and is_it(a[0]) and a[1][0] == 'agg' and a[1][2] == 'None':
+            out.append(('replace(None)', a[0], (b, None)))
+    return out
+
+
+def due_fact(ctx, S, lpred, rpred):
+    """the path established slot time == target, directly or through an is_some_and closure"""
+    if has_cmp(S, 'eq', lpred, rpred, True):
+        return True
+    for f in S:
+        if f[0] == 'bcall' and f[3] is True and f[1].endswith('is_some_and'):
+            for a in f[2]:
+                if isinstance(a, tuple) and a and a[0] == 'closure' and a[1] in ctx.prog.fns:
+                    ca = ctx.an.get(ctx.prog.fns[a[1]])
+                    rv = [v for (b, k, v) in ret_defs(ca)]
+                    if len(rv) == 1 and (is_call(rv[0], 'PartialEq>::eq') or is_call(rv[0], 'PartialEq::eq') or (rv[0][0] == 'bin' and rv[0][1] == 'Eq')):
+                        return True
+    return False
+
+
 def slot_index_ok(pe, vec_field, variant):
     """pe == state.<vec_field>[into_raw(action.machine)] with the machine of the matched TriggerAction variant"""
     e = unload(pe)
@@ -595,18 +627,18 @@ def check_C17(ctx, rep):
     da = an.get(ds)
     rep.analysed(ds)
     dloops = da.cfg.loops()
-    # clearing stores inside the search loops: store None through the iterated slot, then leave the loop
+    # clearing of the slot found by the search: `*opt = None` or `opt.take()` on the iterated element
     n_clear = 0
-    for (pe, v, site, mp) in stores(da):
-        if v[0] == 'agg' and v[2] == 'None' and v[1].endswith('Option') and contains(pe, lambda x: is_call(x, 'Iterator>::next') or is_call(x, 'Iterator::next')):
-            n_clear += 1
-            nxs = [x[3] for x in walk(pe) if isinstance(x, tuple) and x and x[0] == 'call' and len(x) > 3 and x[3] is not None and (x[1].endswith('Iterator>::next') or x[1].endswith('Iterator::next'))]
-            ok = bool(nxs) and not any(da.cfg.can_reach(y, nb[0]) for nb in nxs for (y, l) in da.cfg.succ[site[0]])
-            rep.ob('C17.R3', ds, 'search-stops-at-first-match', ok, 'after clearing the slot the iterator is not advanced again')
-            pfd = an.paths(ds)
-            st = pfd.at(site[0], site[1])
-            okm, w = all_paths(st, lambda S: has_cmp(S, 'eq', lambda l: is_field(l, 'time', 'ScheduledAction'), lambda r: r == ('param', 3), True))
-            rep.ob('C17.R3', ds, 'cleared-slot-is-the-due-one', okm, 'slot cleared only when its time equals the target')
+    pfd = an.paths(ds, history=True)
+    for (kind, pe, site) in clearing_sites(da):
+        n_clear += 1
+        nxs = [x[3] for x in walk(pe) if isinstance(x, tuple) and x and x[0] == 'call' and len(x) > 3 and x[3] is not None and (x[1].endswith('Iterator>::next') or x[1].endswith('Iterator::next'))]
+        ok = bool(nxs) and not any(da.cfg.can_reach(y, nb[0]) for nb in nxs for (y, l) in da.cfg.succ[site[0]])
+        rep.ob('C17.R3', ds, 'search-stops-at-first-match', ok, 'after clearing the slot (%s) the iterator is not advanced again' % kind)
+        pfi = an.paths(ds, entry=nxs[0][0]) if nxs and nxs[0][0] in da.cfg.loops() else an.paths(ds)
+        st = pfi.at(site[0], site[1]) if site[1] is not None else pfi.at_entry(site[0])
+        okm, w = all_paths(st, lambda S: due_fact(ctx, S, lambda l: is_field(l, 'time', 'ScheduledAction'), lambda r: r == ('param', 3)))
+        rep.ob('C17.R3', ds, 'cleared-slot-is-the-due-one', okm and bool(st), 'slot cleared only when its time equals the target')
     rep.count_exact('C17.R3', 'slot clearing sites in do_scheduled_action', n_clear, 2)
     for (site, evn, evf, flds, ln) in sim_events(da):
         if evn == 'PaddingSent':
@@ -719,18 +751,16 @@ def check_C18(ctx, rep):
     di = sim_fn(prog, 'do_internal_timer')
     da = an.get(di)
     rep.analysed(di)
-    dloops = da.cfg.loops()
     n_clear = 0
-    pfd = an.paths(di)
-    for (pe, v, site, mp) in stores(da):
-        if v[0] == 'agg' and v[2] == 'None' and v[1].endswith('Option') and contains(pe, lambda x: is_call(x, 'Iterator>::next') or is_call(x, 'Iterator::next')):
-            n_clear += 1
-            nxs = [x[3] for x in walk(pe) if isinstance(x, tuple) and x and x[0] == 'call' and len(x) > 3 and x[3] is not None and (x[1].endswith('Iterator>::next') or x[1].endswith('Iterator::next'))]
-            ok = bool(nxs) and not any(da.cfg.can_reach(y, nb[0]) for nb in nxs for (y, l) in da.cfg.succ[site[0]])
-            rep.ob('C18.R2', di, 'search-stops-at-first-match', ok, 'after clearing the slot the iterator is not advanced again')
-            st = pfd.at(site[0], site[1])
-            okm, w = all_paths(st, lambda S: any(f[0] == 'cmp' and f[1] == 'eq' and f[5] is True and (f[2] == ('param', 3) or f[3] == ('param', 3)) for f in S))
-            rep.ob('C18.R2', di, 'cleared-slot-is-the-due-one', okm, '')
+    for (kind, pe, site) in clearing_sites(da):
+        n_clear += 1
+        nxs = [x[3] for x in walk(pe) if isinstance(x, tuple) and x and x[0] == 'call' and len(x) > 3 and x[3] is not None and (x[1].endswith('Iterator>::next') or x[1].endswith('Iterator::next'))]
+        ok = bool(nxs) and not any(da.cfg.can_reach(y, nb[0]) for nb in nxs for (y, l) in da.cfg.succ[site[0]])
+        rep.ob('C18.R2', di, 'search-stops-at-first-match', ok, 'after clearing the slot (%s) the iterator is not advanced again' % kind)
+        pfi = an.paths(di, entry=nxs[0][0]) if nxs and nxs[0][0] in da.cfg.loops() else an.paths(di)
+        st = pfi.at(site[0], site[1]) if site[1] is not None else pfi.at_entry(site[0])
+        okm, w = all_paths(st, lambda S: due_fact(ctx, S, lambda l: True, lambda r: r == ('param', 3)))
+        rep.ob('C18.R2', di, 'cleared-slot-is-the-due-one', okm and bool(st), '')
     rep.count_exact('C18.R2', 'slot clearing sites in do_internal_timer', n_clear, 2)
     for (site, evn, evf, flds, ln) in sim_events(da):
         if evn == 'TimerEnd':
